@@ -25,4 +25,8 @@ for k in range(1, 6):
        bounds="pair (A, B) with all four representable edits (symbolic values) plus: %s" % NR[k], cost=30))
 HARNESSES.append(dict(COMMON, name="build_distances", entry="h_build_dist", encoded=BUILD + ["distances comparison of hwloc_topology_diff_build"], tiers={"quick": {}, "thorough": {}},
        unwindset=dict(COMMON["unwindset"], **{"memcmp.0": 40}), bounds="two identical topologies, one 2x2 distances structure on each side with arbitrary values and kinds", cost=20))
+# diff export -> import through the common XML code (element-tree harness of C05: same source, same query)
+import importlib.util as _iu, os as _os
+_s = _iu.spec_from_file_location("spec_C05", _os.path.join(_os.path.dirname(__file__), "C05.py")); _m5 = _iu.module_from_spec(_s); _s.loader.exec_module(_m5)
+for _h in _m5.C16_EXTRA: _h2 = dict(_h); _h2["name"] = "C05_" + _h["name"]; HARNESSES.append(_h2)
 OUTSIDE = ["diff XML export/load (refname)", "memattr/cpukind comparison branches of diff_build (empty in the state)", "lists longer than 3 entries"]
